@@ -112,6 +112,12 @@ pub async fn execute_with_retry<E: RetryExecutor>(
                     // as the unit for backoff time slots.
                     // See SlotBackoff implementation for more details on how this works.
                     backoff = backoff.with_unit((start.elapsed().as_millis() * 11 / 10) as u32);
+                    // Verification hook: see commit_transaction.
+                    #[cfg(lance_verif)]
+                    if lance_core::utils::tokio::VERIF_INLINE_CPU.load(std::sync::atomic::Ordering::Relaxed)
+                    {
+                        backoff = backoff.with_unit(22);
+                    }
                 }
 
                 let sleep_fut = tokio::time::sleep(backoff.next_backoff());
